@@ -243,6 +243,14 @@ def check_F3(ctx, facts, cfg):
                         cdef = s['rv']['def']
                 cb = facts.bodies.get(cdef) if cdef else None
                 good = cb is not None and any(cname(t) == 'datacake_rpc::net::status::Status::invalid' for _b, t in cb.calls())
+            else:
+                # explicit match on the result: every failure return reached from its Err edge is built from Status::invalid()
+                re_u = ResultEdges(fb, flow, ub)
+                inv = [b for b, t in calls if cname(t) == 'datacake_rpc::net::status::Status::invalid']
+                region = re_u.reachable_from_err() if re_u.inspected else set()
+                errs = [b for b in err_return_blocks(fb) if b in region]
+                starts = [e[1] for e in re_u.err]
+                good = bool(inv) and bool(errs) and fb.must_pass(starts, inv, errs)
         ctx.ob('C12.F3', cfg + '|from_body', bool(good), site(fb),
                'request content comes only from DataView::using; its error becomes Status::invalid' if good else
                'generic from_body does not decode through the single guarded doorway / does not map the refusal to Status::invalid')
